@@ -146,7 +146,7 @@ class _Life:
             pin = FileBasedPin(p["pin_path"], default_pin=DEFAULT_PIN, force_change=p["force"])
         except PinError:
             self.emit({"k": "load", "ok": "f"})
-            self.emit({"k": "end", "outcome": "stop"})
+            self.emit({"k": "end", "outcome": "stop"})     # no PIN object: no PIN in use
             return
         self.emit({"k": "load", "ok": "t", "pin_bytes": pin.get_pin().hex()})
         self.crash.at("loaded")
@@ -188,7 +188,7 @@ class _Life:
         except BaseException:   # noqa
             outcome = "stop"
         self.crash.at("ending")
-        self.emit({"k": "end", "outcome": outcome})
+        self.emit({"k": "end", "outcome": outcome, "mem_bytes": bytes(pin.get_pin()).hex()})
         if outcome != "serve" or not p.get("reboot"):
             return
         # serving: a request meets a dead link, the device comes back in the bootloader (power cycle), the
@@ -217,7 +217,7 @@ class _Life:
         except BaseException:   # noqa
             outcome = "stop"
         self.crash.at("ending")
-        self.emit({"k": "end", "outcome": outcome})
+        self.emit({"k": "end", "outcome": outcome, "mem_bytes": bytes(pin.get_pin()).hex()})
 
 
 def preload():
@@ -322,7 +322,9 @@ class History:
         out = {"k": e["k"], "file": self.file_class(None if f is None else bytes.fromhex(f)),
                "dev": self.pin_id(bytes.fromhex(e["dev_bytes"])), "ok": e.get("ok", "na"),
                "pin": 99, "op": e.get("op", "na"), "outcome": e.get("outcome", "na"),
-               "force": bool(e.get("force", False))}
+               "force": bool(e.get("force", False)), "mem": 99}
+        if "mem_bytes" in e:
+            out["mem"] = self.pin_id(bytes.fromhex(e["mem_bytes"]))
         if "pin_bytes" in e:
             pb = bytes.fromhex(e["pin_bytes"])
             out["pin"] = self.pin_id(pb)
